@@ -83,6 +83,51 @@ pub async fn exchange(sock: &mut Sock, c: &mut ConnRec, seq: u32) -> Result<(), 
     Ok(())
 }
 
+/// TCP port of an endpoint text (None for ipc).
+fn port_of(ep: &str) -> Option<&str> {
+    if ep.starts_with("tcp://") {
+        ep.rsplit(':').next()
+    } else {
+        None
+    }
+}
+
+/// The OS hands released ephemeral ports out again, and `localhost` resolves to both
+/// address families: an OS-level probe of an unbound endpoint is only meaningful
+/// while no currently bound endpoint uses the same port number.
+fn port_in_use_by_model(ep: &str, model: &BTreeSet<String>) -> bool {
+    match port_of(ep) {
+        Some(p) => model.iter().any(|m| port_of(m) == Some(p)),
+        None => model.contains(ep),
+    }
+}
+
+/// Is `ep` refused *by the socket under test*? Ephemeral ports are recycled by the OS
+/// and other cases/processes bind concurrently, so a successful OS-level connect proves
+/// nothing by itself: our socket's monitor tells whether it was our listener that
+/// accepted (a connection closed at once yields an accept failure event).
+async fn refused_by_our_socket(ep: &str, mon: &mut futures::channel::mpsc::Receiver<zeromq::SocketEvent>) -> Result<(bool, bool), String> {
+    use futures::StreamExt;
+    #[allow(deprecated)]
+    while let Ok(Some(_)) = mon.try_next() {}
+    match rig::connect_refused(ep).await? {
+        true => Ok((true, false)),
+        false => {
+            // somebody accepted; was it us?
+            let deadline = std::time::Instant::now() + Duration::from_millis(500);
+            while std::time::Instant::now() < deadline {
+                match tokio::time::timeout(Duration::from_millis(50), mon.next()).await {
+                    Ok(Some(zeromq::SocketEvent::Accepted(..))) | Ok(Some(zeromq::SocketEvent::AcceptFailed(_))) => return Ok((false, false)),
+                    Ok(Some(_)) => continue,
+                    Ok(None) => break,
+                    Err(_) => continue,
+                }
+            }
+            Ok((true, true)) // a foreign listener on a recycled port
+        }
+    }
+}
+
 async fn sequence(ty: &str, len: usize, seed: u64) -> (Vec<(String, String)>, Vec<String>, Vec<(String, u64)>, Vec<String>) {
     let mut viol: Vec<(String, String)> = Vec::new();
     let mut inconc: Vec<String> = Vec::new();
@@ -90,6 +135,7 @@ async fn sequence(ty: &str, len: usize, seed: u64) -> (Vec<(String, String)>, Ve
     let mut log: Vec<String> = Vec::new();
     let mut r = Rng::keyed(seed, &[18, hash_str(ty)]);
     let mut sock = Sock::new(ty, None);
+    let mut mon = sock.monitor();
     let mut model: BTreeSet<String> = BTreeSet::new();
     let mut removed: Vec<String> = Vec::new();
     let mut conns: Vec<ConnRec> = Vec::new();
@@ -155,13 +201,21 @@ async fn sequence(ty: &str, len: usize, seed: u64) -> (Vec<(String, String)>, Ve
                             model.remove(&ep);
                             removed.push(ep.clone());
                             // by the time it returns
-                            match rig::connect_refused(&ep).await {
-                                Ok(true) => {}
-                                Ok(false) => {
-                                    viol.push(("C18/unbind-still-accepting".into(), format!("a fresh connect to {ep} succeeded after unbind returned")));
-                                    break 'ops;
+                            if port_in_use_by_model(&ep, &model) {
+                                count!("unbind_probe_skipped_port_reused");
+                            } else {
+                                match refused_by_our_socket(&ep, &mut mon).await {
+                                    Ok((true, foreign)) => {
+                                        if foreign {
+                                            count!("probes_answered_by_a_foreign_listener");
+                                        }
+                                    }
+                                    Ok((false, _)) => {
+                                        viol.push(("C18/unbind-still-accepting".into(), format!("a fresh connect to {ep} was accepted by the socket after unbind returned")));
+                                        break 'ops;
+                                    }
+                                    Err(e) => inconc.push(e),
                                 }
-                                Err(e) => inconc.push(e),
                             }
                         }
                         Err(e) => {
@@ -234,10 +288,14 @@ async fn sequence(ty: &str, len: usize, seed: u64) -> (Vec<(String, String)>, Ve
         // removed endpoints stay closed, model endpoints stay open (cheap OS-level probe)
         if step % 4 == 3 {
             for ep in &removed {
-                if !model.contains(ep) {
-                    if let Ok(false) = rig::connect_refused(ep).await {
-                        viol.push(("C18/unbound-endpoint-accepts-again".into(), format!("{ep} accepts although it was unbound")));
-                        break 'ops;
+                if !port_in_use_by_model(ep, &model) {
+                    match refused_by_our_socket(ep, &mut mon).await {
+                        Ok((false, _)) => {
+                            viol.push(("C18/unbound-endpoint-accepts-again".into(), format!("{ep} is accepted by the socket although it was unbound")));
+                            break 'ops;
+                        }
+                        Ok((true, true)) => count!("probes_answered_by_a_foreign_listener"),
+                        _ => {}
                     }
                 }
             }
